@@ -165,7 +165,8 @@ struct Cfg {
     level: u8,       // 0 None, 1 Chunk, 2 Page
     wbs: usize,      // write_batch_size
     rowlimit: usize, // data_page_row_count_limit
-    flags: u32,      // 1 dictionary, 2 writer version 2, 4 nullable column, 8 page header statistics
+    flags: u32,      // 1 dictionary, 2 v2, 4 nullable, 8 page header statistics, 16 sliced arrays + junk under nulls (aw),
+                     // 32 write_batch_with_statistics (cw), 64 bloom filters at the end of the file
     bloom: u8,       // 0 off, else index into BLOOM table
     rg: usize,       // rows per row group (0 = one row group)
 }
@@ -187,6 +188,9 @@ fn props(cfg: &Cfg) -> WriterProperties {
         .set_write_page_header_statistics(cfg.flags & 8 != 0);
     if cfg.rg != 0 {
         b = b.set_max_row_group_row_count(Some(cfg.rg));
+    }
+    if cfg.flags & 64 != 0 {
+        b = b.set_bloom_filter_position(parquet::file::properties::BloomFilterPosition::End);
     }
     if cfg.bloom != 0 {
         let (ndv, fpp) = BLOOM[cfg.bloom as usize];
@@ -284,7 +288,7 @@ fn batch_min_max(kind: Kind, b: &Batch) -> Option<(Vec<u8>, Vec<u8>)> {
 
 fn write_cw(kind: Kind, cfg: &Cfg, batches: &[Batch]) -> Result<Vec<u8>, String> {
     let nullable = cfg.flags & 4 != 0;
-    let with_stats = cfg.flags & 32 != 0;
+    let with_stats = cfg.flags & 32 != 0 && !matches!(kind, Kind::Interval | Kind::Int96);
     // row groups are cut at batch boundaries once `rg` rows have been written
     let mut groups: Vec<Vec<&Batch>> = vec![vec![]];
     let mut rows = 0usize;
@@ -638,7 +642,7 @@ fn oracle_rg(kind: Kind, cfg: &Cfg, rows: &[&Option<Vec<u8>>], rb: &ReadBack) ->
     }
     let check_bounds = |what: &str, vals: &[&Option<Vec<u8>>], mn: &Option<Vec<u8>>, mx: &Option<Vec<u8>>, exact: Option<(bool, bool)>, bad: &mut Vec<String>| {
         let real: Vec<&Vec<u8>> = vals.iter().filter_map(|v| v.as_ref()).filter(|v| !is_nan(kind, v)).collect();
-        if real.is_empty() {
+        if real.is_empty() || undefined_order {
             return;
         }
         match (mn, mx) {
@@ -684,8 +688,11 @@ fn oracle_rg(kind: Kind, cfg: &Cfg, rows: &[&Option<Vec<u8>>], rb: &ReadBack) ->
                 }
             }
             let real = rows.iter().filter(|v| v.as_ref().map_or(false, |x| !is_nan(kind, x))).count();
-            if real > 0 && (rb.min.is_none() || rb.max.is_none()) {
+            if real > 0 && !undefined_order && (rb.min.is_none() || rb.max.is_none()) {
                 bad.push("chunk min/max missing".into());
+            }
+            if kind == Kind::Interval && (rb.min.is_some() || rb.max.is_some()) {
+                bad.push("INTERVAL column (undefined order) has min/max flagged exact but not attained".into());
             }
             check_bounds("chunk", &rows, &rb.min, &rb.max, Some((rb.min_exact, rb.max_exact)), &mut bad);
         }
@@ -727,6 +734,7 @@ fn oracle_rg(kind: Kind, cfg: &Cfg, rows: &[&Option<Vec<u8>>], rb: &ReadBack) ->
     // column index
     if cfg.level == 2 {
         match &rb.ci {
+            None if undefined_order => {}
             None => bad.push("column index missing".into()),
             Some(ci) => {
                 if ci.mins.len() != rb.pages.len() {
@@ -764,6 +772,7 @@ fn oracle_rg(kind: Kind, cfg: &Cfg, rows: &[&Option<Vec<u8>>], rb: &ReadBack) ->
                         let (amin, amax) = (ci.mins[a].as_ref().unwrap(), ci.maxs[a].as_ref().unwrap());
                         let (bmin, bmax) = (ci.mins[b].as_ref().unwrap(), ci.maxs[b].as_ref().unwrap());
                         let viol = match ci.order {
+                            _ if undefined_order => false,
                             1 => lt(bmin, amin) || lt(bmax, amax),
                             2 => lt(amin, bmin) || lt(amax, bmax),
                             _ => false,
@@ -797,6 +806,318 @@ fn oracle_rg(kind: Kind, cfg: &Cfg, rows: &[&Option<Vec<u8>>], rb: &ReadBack) ->
     bad
 }
 
+/// whole-file oracle: every row group against its slice of the written rows, plus the
+/// statistics as surfaced to Arrow by `StatisticsConverter`
+fn oracle(kind: Kind, cfg: &Cfg, batches: &[Batch], rbs: &[ReadBack], md: &ParquetMetaData, convert: bool) -> Vec<String> {
+    let rows: Vec<&Option<Vec<u8>>> = batches.iter().flatten().collect();
+    let mut bad = vec![];
+    if md.file_metadata().num_rows() != rows.len() as i64 {
+        bad.push(format!("file num_rows {} != {}", md.file_metadata().num_rows(), rows.len()));
+    }
+    let total: i64 = rbs.iter().map(|r| r.num_rows).sum();
+    if total != rows.len() as i64 {
+        bad.push(format!("row groups hold {} rows, {} written (num_rows)", total, rows.len()));
+        return bad;
+    }
+    let mut start = 0usize;
+    for (g, rb) in rbs.iter().enumerate() {
+        let end = start + rb.num_rows as usize;
+        for f in oracle_rg(kind, cfg, &rows[start..end], rb) {
+            bad.push(if rbs.len() > 1 { format!("rg[{}] {}", g, f) } else { f });
+        }
+        start = end;
+    }
+    if convert && cfg.level != 0 && !rbs.is_empty() {
+        bad.extend(oracle_converter(kind, cfg, &rows, rbs, md));
+    }
+    bad
+}
+
+/// one element of an Arrow statistics array as plain-encoded bytes of the kind (None = null)
+fn arrow_elem(kind: Kind, a: &ArrayRef, i: usize) -> Result<Option<Vec<u8>>, String> {
+    use arrow_array::cast::AsArray;
+    use arrow_array::types::*;
+    if a.is_null(i) {
+        return Ok(None);
+    }
+    let dt = a.data_type().clone();
+    let v = match (&dt, kind) {
+        (ArrowType::Int32, _) => a.as_primitive::<arrow_array::types::Int32Type>().value(i).to_le_bytes().to_vec(),
+        (ArrowType::UInt32, _) => a.as_primitive::<UInt32Type>().value(i).to_le_bytes().to_vec(),
+        (ArrowType::Int64, _) => a.as_primitive::<arrow_array::types::Int64Type>().value(i).to_le_bytes().to_vec(),
+        (ArrowType::UInt64, _) => a.as_primitive::<UInt64Type>().value(i).to_le_bytes().to_vec(),
+        (ArrowType::Float32, _) => a.as_primitive::<Float32Type>().value(i).to_le_bytes().to_vec(),
+        (ArrowType::Float64, _) => a.as_primitive::<Float64Type>().value(i).to_le_bytes().to_vec(),
+        (ArrowType::Float16, _) => a.as_primitive::<Float16Type>().value(i).to_le_bytes().to_vec(),
+        (ArrowType::Decimal128(_, _), _) => a.as_primitive::<Decimal128Type>().value(i).to_be_bytes().to_vec(),
+        (ArrowType::Decimal32(_, _), _) => (a.as_primitive::<Decimal32Type>().value(i) as i128).to_be_bytes().to_vec(),
+        (ArrowType::Decimal64(_, _), _) => (a.as_primitive::<Decimal64Type>().value(i) as i128).to_be_bytes().to_vec(),
+        (ArrowType::Utf8, _) => a.as_string::<i32>().value(i).as_bytes().to_vec(),
+        (ArrowType::LargeUtf8, _) => a.as_string::<i64>().value(i).as_bytes().to_vec(),
+        (ArrowType::Utf8View, _) => a.as_string_view().value(i).as_bytes().to_vec(),
+        (ArrowType::Binary, _) => a.as_binary::<i32>().value(i).to_vec(),
+        (ArrowType::LargeBinary, _) => a.as_binary::<i64>().value(i).to_vec(),
+        (ArrowType::BinaryView, _) => a.as_binary_view().value(i).to_vec(),
+        (ArrowType::FixedSizeBinary(_), _) => a.as_fixed_size_binary().value(i).to_vec(),
+        (ArrowType::Boolean, _) => vec![a.as_boolean().value(i) as u8],
+        _ => return Err(format!("unexpected statistics array type {:?}", dt)),
+    };
+    Ok(Some(v))
+}
+
+/// `StatisticsConverter`: row-group and data-page min/max/null counts/row counts as Arrow arrays
+fn oracle_converter(kind: Kind, cfg: &Cfg, rows: &[&Option<Vec<u8>>], rbs: &[ReadBack], md: &ParquetMetaData) -> Vec<String> {
+    use parquet::arrow::arrow_reader::statistics::StatisticsConverter;
+    let mut bad = vec![];
+    if matches!(kind, Kind::Interval | Kind::Int96) {
+        return bad;
+    }
+    let total_order = rbs[0].total_order;
+    let lt = |a: &[u8], b: &[u8]| cmp_values(kind, total_order, a, b) == Ordering::Less;
+    let pschema = md.file_metadata().schema_descr();
+    let aschema = match parquet::arrow::parquet_to_arrow_schema(pschema, md.file_metadata().key_value_metadata()) {
+        Ok(s) => s,
+        Err(_) => return vec!["converter: arrow schema missing".into()],
+    };
+    let conv = match StatisticsConverter::try_new("c", &aschema, pschema) {
+        Ok(c) => c,
+        Err(_) => return vec!["converter: try_new missing".into()],
+    };
+    let real = |vals: &[&Option<Vec<u8>>]| -> Vec<Vec<u8>> {
+        vals.iter().filter_map(|v| v.as_ref()).filter(|v| !is_nan(kind, v)).cloned().collect()
+    };
+    let check = |what: String, vals: &[&Option<Vec<u8>>], mn: Option<Vec<u8>>, mx: Option<Vec<u8>>, bad: &mut Vec<String>| {
+        let r = real(vals);
+        if let Some(mn) = mn {
+            if let Some(v) = r.iter().find(|v| lt(v, &mn)) {
+                bad.push(format!("converter {} min {} does not bound value {}", what, hex(&mn), hex(v)));
+            }
+        }
+        if let Some(mx) = mx {
+            if let Some(v) = r.iter().find(|v| lt(&mx, v)) {
+                bad.push(format!("converter {} max {} does not bound value {}", what, hex(&mx), hex(v)));
+            }
+        }
+    };
+    // row groups
+    let rgs = md.row_groups();
+    let (mins, maxes, nulls, counts) = match (
+        conv.row_group_mins(rgs.iter()),
+        conv.row_group_maxes(rgs.iter()),
+        conv.row_group_null_counts(rgs.iter()),
+        conv.row_group_row_counts(rgs.iter()),
+    ) {
+        (Ok(a), Ok(b), Ok(c), Ok(d)) => (a, b, c, d),
+        _ => return vec!["converter: row group statistics missing".into()],
+    };
+    let mut start = 0usize;
+    for (g, rb) in rbs.iter().enumerate() {
+        let end = start + rb.num_rows as usize;
+        let vals = &rows[start..end];
+        match (arrow_elem(kind, &mins, g), arrow_elem(kind, &maxes, g)) {
+            (Ok(mn), Ok(mx)) => {
+                // a missing (null) converted bound is conservative, never a violation
+                check(format!("rg[{}]", g), vals, mn, mx, &mut bad)
+            }
+            _ => bad.push(format!("converter rg[{}] statistics array type missing", g)),
+        }
+        let nn = vals.iter().filter(|v| v.is_none()).count() as u64;
+        if !nulls.is_null(g) && nulls.value(g) != nn {
+            bad.push(format!("converter rg[{}] null_count {} != {}", g, nulls.value(g), nn));
+        }
+        if let Some(c) = &counts {
+            if !c.is_null(g) && c.value(g) != vals.len() as u64 {
+                bad.push(format!("converter rg[{}] row count {} != {} (num_rows)", g, c.value(g), vals.len()));
+            }
+        }
+        start = end;
+    }
+    // data pages
+    if cfg.level == 2 {
+        if let Some(pi) = md.page_index() {
+            if rbs.iter().all(|r| r.ci.is_some() && r.first_rows.is_some()) {
+                let idx: Vec<usize> = (0..rbs.len()).collect();
+                let res = std::panic::catch_unwind(std::panic::AssertUnwindSafe(|| {
+                    (
+                        conv.data_page_mins(pi, idx.iter()),
+                        conv.data_page_maxes(pi, idx.iter()),
+                        conv.data_page_null_counts(pi, idx.iter()),
+                        conv.data_page_row_counts(pi, rgs, idx.iter()),
+                    )
+                }));
+                let res = match res {
+                    Ok(r) => r,
+                    Err(_) => {
+                        bad.push("converter data_page_* panicked (StatisticsConverter)".into());
+                        return bad;
+                    }
+                };
+                match res {
+                    (Ok(pm), Ok(px), Ok(pn), Ok(pc)) => {
+                        let mut k = 0usize;
+                        let mut start = 0usize;
+                        for (g, rb) in rbs.iter().enumerate() {
+                            let mut ps = start;
+                            for (i, p) in rb.pages.iter().enumerate() {
+                                let pe = (ps + p.0).min(rows.len());
+                                if k >= pm.len() {
+                                    bad.push("converter: fewer data page entries than pages (offset index)".into());
+                                    break;
+                                }
+                                let vals = &rows[ps..pe];
+                                if let (Ok(mn), Ok(mx)) = (arrow_elem(kind, &pm, k), arrow_elem(kind, &px, k)) {
+                                    check(format!("rg[{}] page[{}]", g, i), vals, mn, mx, &mut bad);
+                                }
+                                let nn = vals.iter().filter(|v| v.is_none()).count() as u64;
+                                if !pn.is_null(k) && pn.value(k) != nn {
+                                    bad.push(format!("converter rg[{}] page[{}] null_count {} != {}", g, i, pn.value(k), nn));
+                                }
+                                if let Some(c) = &pc {
+                                    if !c.is_null(k) && c.value(k) != vals.len() as u64 {
+                                        bad.push(format!("converter rg[{}] page[{}] row count {} != {} (first_row_index)", g, i, c.value(k), vals.len()));
+                                    }
+                                }
+                                ps = pe;
+                                k += 1;
+                            }
+                            start += rb.num_rows as usize;
+                        }
+                    }
+                    _ => bad.push("converter: data page statistics missing".into()),
+                }
+            }
+        }
+    }
+    bad
+}
+
+// -------------------------------------------------------------------------------- nested
+
+/// a row of a `List<Int32>` column: None = null list, Some(items) with null items
+type NRow = Option<Vec<Option<i32>>>;
+
+fn parse_nested(s: &str) -> Vec<NRow> {
+    if s == "-" {
+        return vec![];
+    }
+    s.split(';')
+        .map(|r| match r {
+            "N" => None,
+            "E" => Some(vec![]),
+            items => Some(items.split(',').map(|x| if x == "n" { None } else { Some(x.parse::<i32>().unwrap()) }).collect()),
+        })
+        .collect()
+}
+fn show_nested(rows: &[NRow]) -> String {
+    if rows.is_empty() {
+        return "-".into();
+    }
+    rows.iter()
+        .map(|r| match r {
+            None => "N".to_string(),
+            Some(v) if v.is_empty() => "E".to_string(),
+            Some(v) => v.iter().map(|x| x.map_or("n".to_string(), |y| y.to_string())).collect::<Vec<_>>().join(","),
+        })
+        .collect::<Vec<_>>()
+        .join(";")
+}
+
+fn write_nested(cfg: &Cfg, rows: &[NRow]) -> Result<Vec<u8>, String> {
+    let item = Arc::new(Field::new("item", ArrowType::Int32, true));
+    let sch = Arc::new(Schema::new(vec![Field::new("c", ArrowType::List(item.clone()), true)]));
+    let child = Int32Array::from_iter(rows.iter().flatten().flatten().cloned());
+    let offsets = OffsetBuffer::from_lengths(rows.iter().map(|r| r.as_ref().map_or(0, |l| l.len())));
+    let nulls = NullBuffer::from(rows.iter().map(|r| r.is_some()).collect::<Vec<bool>>());
+    let list = ListArray::new(item, offsets, Arc::new(child), Some(nulls));
+    let mut buf: Vec<u8> = vec![];
+    {
+        let mut w = ArrowWriter::try_new(&mut buf, sch.clone(), Some(props(cfg))).map_err(|e| e.to_string())?;
+        // flags bit 16: write in two record batches
+        let n = rows.len();
+        let cut = if cfg.flags & 16 != 0 { n / 2 } else { n };
+        for (a, l) in [(0, cut), (cut, n - cut)] {
+            if l == 0 && n != 0 {
+                continue;
+            }
+            let rb = RecordBatch::try_new(sch.clone(), vec![Arc::new(list.slice(a, l)) as ArrayRef]).map_err(|e| e.to_string())?;
+            w.write(&rb).map_err(|e| e.to_string())?;
+            if n == 0 {
+                break;
+            }
+        }
+        w.close().map_err(|e| e.to_string())?;
+    }
+    Ok(buf)
+}
+
+/// pages of a nested column cover whole rows; a page is a null page only when it holds no value
+fn oracle_nested(rows: &[NRow], rbs: &[ReadBack], md: &ParquetMetaData) -> Vec<String> {
+    let mut bad = vec![];
+    if md.file_metadata().num_rows() != rows.len() as i64 {
+        bad.push(format!("file num_rows {} != {}", md.file_metadata().num_rows(), rows.len()));
+    }
+    if rows.is_empty() || rbs.len() != 1 {
+        return bad;
+    }
+    let rb = &rbs[0];
+    let le = |v: i32| v.to_le_bytes().to_vec();
+    let i32of = |b: &Vec<u8>| i32::from_le_bytes(b[..].try_into().unwrap());
+    let leaves = |rs: &[NRow]| -> Vec<i32> { rs.iter().flatten().flatten().flatten().cloned().collect() };
+    let all = leaves(rows);
+    if !all.is_empty() {
+        match (&rb.min, &rb.max) {
+            (Some(mn), Some(mx)) => {
+                if let Some(v) = all.iter().find(|v| **v < i32of(mn)) {
+                    bad.push(format!("chunk min {} does not bound value {}", hex(mn), hex(&le(*v))));
+                }
+                if let Some(v) = all.iter().find(|v| **v > i32of(mx)) {
+                    bad.push(format!("chunk max {} does not bound value {}", hex(mx), hex(&le(*v))));
+                }
+            }
+            _ => bad.push("chunk min/max missing".into()),
+        }
+    }
+    let (ci, fr) = match (&rb.ci, &rb.first_rows) {
+        (Some(c), Some(f)) => (c, f),
+        // a page of null levels only (but not a "null page" by the row count) has no statistics and
+        // invalidates the whole column index: no index = no pruning, which is safe
+        _ => return bad,
+    };
+    if ci.mins.len() != fr.len() {
+        bad.push(format!("column index has {} pages, offset index {}", ci.mins.len(), fr.len()));
+        return bad;
+    }
+    for i in 0..fr.len() {
+        let a = fr[i] as usize;
+        let b = if i + 1 < fr.len() { fr[i + 1] as usize } else { rows.len() };
+        if a > b || b > rows.len() || (i == 0 && a != 0) {
+            bad.push(format!("first_row_index[{}] = {} inconsistent", i, fr[i]));
+            break;
+        }
+        let vals = leaves(&rows[a..b]);
+        if ci.null_pages[i] != vals.is_empty() {
+            bad.push(format!(
+                "null_pages[{}] = {} but the page (rows {}..{}) holds {} non-null values",
+                i, ci.null_pages[i], a, b, vals.len()
+            ));
+        }
+        if !vals.is_empty() {
+            match (&ci.mins[i], &ci.maxs[i]) {
+                (Some(mn), Some(mx)) if !ci.null_pages[i] => {
+                    if let Some(v) = vals.iter().find(|v| **v < i32of(mn)) {
+                        bad.push(format!("page[{}] min {} does not bound value {}", i, hex(mn), hex(&le(*v))));
+                    }
+                    if let Some(v) = vals.iter().find(|v| **v > i32of(mx)) {
+                        bad.push(format!("page[{}] max {} does not bound value {}", i, hex(mx), hex(&le(*v))));
+                    }
+                }
+                _ => {}
+            }
+        }
+    }
+    bad
+}
+
 // ------------------------------------------------------------------------------ run_case
 
 fn opt_hex(v: &Option<Vec<u8>>) -> String {
@@ -809,11 +1130,11 @@ fn opt_hex(v: &Option<Vec<u8>>) -> String {
 
 fn parse_cfg_stats(t: &[&str]) -> Cfg {
     let us = |s: &str| s.parse::<usize>().unwrap();
-    Cfg { stl: us(t[0]), cil: us(t[1]), level: 2, wbs: us(t[2]), rowlimit: us(t[3]), flags: us(t[4]) as u32 & !4, bloom: 0 }
+    Cfg { stl: us(t[0]), cil: us(t[1]), level: 2, wbs: us(t[2]), rowlimit: us(t[3]), flags: us(t[4]) as u32 & !4, bloom: 0, rg: 0 }
 }
 fn parse_cfg_file(t: &[&str]) -> Cfg {
     let us = |s: &str| s.parse::<usize>().unwrap();
-    Cfg { stl: us(t[0]), cil: us(t[1]), level: us(t[2]) as u8, wbs: us(t[3]), rowlimit: us(t[4]), flags: us(t[5]) as u32, bloom: us(t[6]) as u8 }
+    Cfg { stl: us(t[0]), cil: us(t[1]), level: us(t[2]) as u8, wbs: us(t[3]), rowlimit: us(t[4]), flags: us(t[5]) as u32, bloom: us(t[6]) as u8, rg: us(t[7]) }
 }
 
 fn xxh(b: &[u8]) -> u64 {
@@ -835,11 +1156,12 @@ fn run_case_full(line: &str) -> (String, Vec<String>) {
                     Ok(f) => f,
                     Err(_) => return "ERR:write".into(),
                 };
-                let rb = match read_back(file) {
+                let (rbs, md) = match read_back(file) {
                     Ok(r) => r,
                     Err(_) => return "ERR:read".into(),
                 };
-                fails = oracle(kind, &cfg, &batches, &rb);
+                fails = oracle(kind, &cfg, &batches, &rbs, &md, true);
+                let rb = &rbs[0];
                 let pages = match &rb.ci {
                     None => "noindex".to_string(),
                     Some(ci) => {
@@ -862,26 +1184,54 @@ fn run_case_full(line: &str) -> (String, Vec<String>) {
         "file" => {
             let api = t[2];
             let kind = parse_kind(t[3]);
-            let cfg = parse_cfg_file(&t[4..11]);
-            let batches = parse_batches(t[11]);
+            let cfg = parse_cfg_file(&t[4..12]);
+            let batches = parse_batches(t[12]);
             let mut fails = vec![];
             let ans = guarded(|| {
-                let file = match if api == "aw" { write_aw(kind, &cfg, &batches) } else { write_cw(kind, &cfg, &batches) } {
+                let file = match if api.starts_with("aw") {
+                    write_aw(kind, &cfg, &batches, aw_variant(api))
+                } else {
+                    write_cw(kind, &cfg, &batches)
+                } {
                     Ok(f) => f,
                     Err(_) => return "ERR:write".into(),
                 };
-                let rb = match read_back(file) {
+                let (rbs, md) = match read_back(file) {
                     Ok(r) => r,
                     Err(_) => return "ERR:read".into(),
                 };
-                fails = oracle(kind, &cfg, &batches, &rb);
-                let nulls = match (cfg.level, rb.null_count) {
-                    (0, _) => "x".to_string(),
-                    _ if rb.num_rows == 0 => "x".to_string(),
-                    (_, Some(n)) => n.to_string(),
-                    (_, None) => "none".to_string(),
+                let invalid_utf8 = kind == Kind::Utf8 && batches.iter().flatten().flatten().any(|v| std::str::from_utf8(v).is_err());
+                fails = oracle(kind, &cfg, &batches, &rbs, &md, !invalid_utf8);
+                let num_rows = md.file_metadata().num_rows();
+                let nulls = if cfg.level == 0 || num_rows == 0 {
+                    "x".to_string()
+                } else if rbs.iter().all(|r| r.null_count.is_some()) {
+                    rbs.iter().map(|r| r.null_count.unwrap()).sum::<u64>().to_string()
+                } else {
+                    "none".to_string()
                 };
-                format!("{} {}", rb.num_rows, nulls)
+                format!("{} {}", num_rows, nulls)
+            });
+            (ans, fails)
+        }
+        "nested" => {
+            // C07 nested <rowlimit> <wbs> <flags> <rows>   (List<Int32> through ArrowWriter, Page statistics)
+            let us = |s: &str| s.parse::<usize>().unwrap();
+            let cfg = Cfg { stl: 0, cil: 0, level: 2, wbs: us(t[3]), rowlimit: us(t[2]), flags: us(t[4]) as u32, bloom: 0, rg: 0 };
+            let rows = parse_nested(t[5]);
+            let mut fails = vec![];
+            let ans = guarded(|| {
+                let file = match write_nested(&cfg, &rows) {
+                    Ok(f) => f,
+                    Err(_) => return "ERR:write".into(),
+                };
+                let (rbs, md) = match read_back(file) {
+                    Ok(r) => r,
+                    Err(_) => return "ERR:read".into(),
+                };
+                fails = oracle_nested(&rows, &rbs, &md);
+                let leaves: usize = rows.iter().map(|r| r.as_ref().map_or(0, |l| l.iter().flatten().count())).sum();
+                format!("{} {}", md.file_metadata().num_rows(), leaves)
             });
             (ans, fails)
         }
@@ -1059,6 +1409,7 @@ fn gen_value(rng: &mut Rng, kind: Kind) -> Vec<u8> {
         }
         Kind::Flba(n) => gen_bytes(rng, n),
         Kind::Bool => vec![rng.bool() as u8],
+        Kind::Interval | Kind::Int96 => rng.bytes(12),
     }
 }
 
@@ -1253,8 +1604,120 @@ fn value_tags(kind: Kind, cfg: &Cfg, batches: &[Batch]) -> String {
     tags
 }
 
+/// the column-writer path cuts row groups at batch boundaries: is one of them empty?
+fn has_empty_rg(api: &str, cfg: &Cfg, batches: &[Batch]) -> bool {
+    if api != "cw" {
+        return false;
+    }
+    let mut counts = vec![0usize];
+    let mut rows = 0usize;
+    for b in batches {
+        if cfg.rg != 0 && rows >= cfg.rg {
+            counts.push(0);
+            rows = 0;
+        }
+        *counts.last_mut().unwrap() += b.len();
+        rows += b.len();
+    }
+    counts.iter().any(|c| *c == 0)
+}
+
+fn mk_stats(kind: Kind, cfg: &Cfg, batches: &[Batch], extra: &str) -> (String, String) {
+    let line = format!(
+        "C07 stats {} {} {} {} {} {} {}",
+        kind_name(kind), cfg.stl, cfg.cil, cfg.wbs, cfg.rowlimit, cfg.flags, show_batches(batches)
+    );
+    let mut tags = format!("op:stats kind:{}{}{}", t_kind(kind), value_tags(kind, cfg, batches), extra);
+    if has_empty_rg("cw", cfg, batches) {
+        tags.push_str(" kf:empty-row-group");
+    }
+    (line, tags)
+}
+
+fn file_tags(api: &str, kind: Kind, cfg: &Cfg, batches: &[Batch]) -> String {
+    let mut t = format!(
+        "op:file api:{} kind:{} level:{} bloom:{}{}",
+        api, t_kind(kind), cfg.level, (cfg.bloom != 0) as u8, value_tags(kind, cfg, batches)
+    );
+    if cfg.rg != 0 {
+        t.push_str(" multi-rg");
+    }
+    if has_empty_rg(api, cfg, batches) {
+        t.push_str(" kf:empty-row-group");
+    }
+    if cfg.flags & 16 != 0 && api.starts_with("aw") {
+        t.push_str(" sliced-junk");
+    }
+    if cfg.flags & 32 != 0 && api == "cw" {
+        t.push_str(" with-statistics");
+    }
+    if cfg.flags & 64 != 0 && cfg.bloom != 0 {
+        t.push_str(" bloom-at-end");
+    }
+    t
+}
+
+fn mk_file(api: &str, kind: Kind, cfg: &Cfg, batches: &[Batch], extra: &str) -> (String, String) {
+    let line = format!(
+        "C07 file {} {} {} {} {} {} {} {} {} {} {}",
+        api, kind_name(kind), cfg.stl, cfg.cil, cfg.level, cfg.wbs, cfg.rowlimit, cfg.flags, cfg.bloom, cfg.rg,
+        show_batches(batches)
+    );
+    (line, format!("{}{}", file_tags(api, kind, cfg, batches), extra))
+}
+
+fn mk_bloom(nbytes: usize, values: &[Vec<u8>], fpp: f64, extra: &str) -> (String, String) {
+    // observe the number of folds the implementation chooses (f64 heuristic = external parameter)
+    let mut f = Sbbf::new_with_num_of_bytes(nbytes);
+    let before = f.num_blocks();
+    for v in values {
+        f.insert(&v[..]);
+    }
+    f.fold_to_target_fpp(fpp);
+    let folds = (before / f.num_blocks().max(1)).trailing_zeros();
+    let hashes: Vec<u64> = values.iter().map(|v| xxh(v)).collect();
+    let vs = if values.is_empty() {
+        "-".to_string()
+    } else {
+        values.iter().map(|v| if v.is_empty() { "e".to_string() } else { hex(v) }).collect::<Vec<_>>().join(",")
+    };
+    let line = format!("C07 bloom {} {} {} {} {}", nbytes, folds, fpp.to_bits(), vs, show_list(&hashes));
+    let tags = format!("op:bloom folds:{} blocks:{}{}{}", folds, before, if values.is_empty() { "" } else { " nt" }, extra);
+    (line, tags)
+}
+
+fn nested_tags(rows: &[NRow]) -> String {
+    let leaves: usize = rows.iter().flatten().flatten().flatten().count();
+    let null_levels = rows.iter().filter(|r| r.as_ref().map_or(true, |l| l.is_empty())).count()
+        + rows.iter().flatten().flatten().filter(|x| x.is_none()).count();
+    let mut t = String::from("op:nested");
+    if leaves >= 2 {
+        t.push_str(" nt");
+    }
+    if null_levels > 0 && leaves > 0 {
+        // a page can hold as many null levels as rows and still hold values
+        t.push_str(" kf:nested-null-levels");
+    }
+    t
+}
+
+fn mk_nested(rowlimit: usize, wbs: usize, flags: u32, rows: &[NRow], extra: &str) -> (String, String) {
+    (format!("C07 nested {} {} {} {}", rowlimit, wbs, flags, show_nested(rows)), format!("{}{}", nested_tags(rows), extra))
+}
+
+fn gen_nested_rows(rng: &mut Rng) -> Vec<NRow> {
+    let n = rng.usize(8);
+    (0..n)
+        .map(|_| match rng.usize(6) {
+            0 => None,
+            1 => Some(vec![]),
+            _ => Some((0..1 + rng.usize(3)).map(|_| if rng.chance(1, 3) { None } else { Some(rng.range(-3, 3) as i32) }).collect()),
+        })
+        .collect()
+}
+
 fn gen_case(rng: &mut Rng) -> (String, String) {
-    let r = rng.usize(20);
+    let r = rng.usize(21);
     if r < 9 {
         // stats: correspondence with the model
         let kind = gen_kind(rng);
@@ -1262,8 +1725,8 @@ fn gen_case(rng: &mut Rng) -> (String, String) {
         let cil = *rng.pick(&[0usize, 1, 2, 3, 4, 5, 6, 7, 8, 64]);
         let wbs = *rng.pick(&[1usize, 2, 3, 1024]);
         let rowlimit = *rng.pick(&[1usize, 2, 3, 20000]);
-        let flags = (rng.usize(4) as u32) | if rng.bool() { 8 } else { 0 };
-        let cfg = Cfg { stl, cil, level: 2, wbs, rowlimit, flags, bloom: 0 };
+        let flags = (rng.usize(4) as u32) | if rng.bool() { 8 } else { 0 } | if rng.chance(1, 4) { 32 } else { 0 };
+        let cfg = Cfg { stl, cil, level: 2, wbs, rowlimit, flags, bloom: 0, rg: 0 };
         let same = rng.chance(1, 2);
         let mut batches = gen_batches(rng, kind, false, same);
         if rng.chance(1, 5) {
@@ -1273,43 +1736,43 @@ fn gen_case(rng: &mut Rng) -> (String, String) {
         if kind == Kind::Utf8 && rng.chance(1, 6) {
             corrupt_utf8(rng, &mut batches);
         }
-        let line = format!(
-            "C07 stats {} {} {} {} {} {} {}",
-            kind_name(kind), stl, cil, wbs, rowlimit, flags, show_batches(&batches)
-        );
-        let tags = format!("op:stats kind:{}{}", t_kind(kind), value_tags(kind, &cfg, &batches));
-        (line, tags)
+        mk_stats(kind, &cfg, &batches, "")
     } else if r < 17 {
-        let mut kind = gen_kind(rng);
-        let api = if rng.chance(2, 5) && arrow_type(kind).is_some() { "aw" } else { "cw" };
-        if api == "aw" && kind == Kind::Utf8 {
-            kind = Kind::Utf8;
-        }
+        let kind = if rng.chance(1, 40) { *rng.pick(&[Kind::Interval, Kind::Int96]) } else { gen_kind(rng) };
+        let api = if rng.chance(1, 2) && arrow_type(kind).is_some() {
+            *rng.pick(&["aw", "aw", "awl", "awv", "awd"])
+        } else {
+            "cw"
+        };
         let stl = *rng.pick(&[0usize, 1, 2, 3, 4, 5, 6, 7, 8, 64]);
         let cil = *rng.pick(&[0usize, 1, 2, 3, 4, 5, 6, 7, 8, 64]);
         let level = *rng.pick(&[0u8, 1, 2, 2, 2]);
         let wbs = *rng.pick(&[1usize, 2, 3, 1024]);
         let rowlimit = *rng.pick(&[1usize, 2, 3, 20000]);
         let nullable = rng.bool();
-        let flags = (rng.usize(4) as u32) | if nullable { 4 } else { 0 } | if rng.bool() { 8 } else { 0 };
-        let bloom = if rng.bool() { 0 } else { 1 + rng.usize(4) as u8 };
-        let cfg = Cfg { stl, cil, level, wbs, rowlimit, flags, bloom };
+        let flags = (rng.usize(4) as u32)
+            | if nullable { 4 } else { 0 }
+            | if rng.bool() { 8 } else { 0 }
+            | if rng.chance(1, 3) { 16 } else { 0 }
+            | if rng.chance(1, 4) { 32 } else { 0 }
+            | if rng.chance(1, 3) { 64 } else { 0 };
+        let bloom = if rng.bool() { 0 } else { 1 + rng.usize(5) as u8 };
+        let rg = if rng.chance(1, 3) { 1 + rng.usize(6) } else { 0 };
+        let cfg = Cfg { stl, cil, level, wbs, rowlimit, flags, bloom, rg };
         let same = rng.chance(1, 2);
         let mut batches = gen_batches(rng, kind, nullable, same);
         if kind == Kind::Utf8 && api == "cw" && rng.chance(1, 6) {
             corrupt_utf8(rng, &mut batches);
         }
-        let line = format!(
-            "C07 file {} {} {} {} {} {} {} {} {} {}",
-            api, kind_name(kind), stl, cil, level, wbs, rowlimit, flags, bloom, show_batches(&batches)
-        );
-        let tags = format!(
-            "op:file api:{} kind:{} level:{} bloom:{}{}",
-            api, t_kind(kind), level, (bloom != 0) as u8, value_tags(kind, &cfg, &batches)
-        );
-        (line, tags)
+        mk_file(api, kind, &cfg, &batches, "")
+    } else if r < 18 {
+        let rows = gen_nested_rows(rng);
+        let rowlimit = *rng.pick(&[1usize, 2, 3, 20000]);
+        let wbs = *rng.pick(&[1usize, 2, 3, 1024]);
+        let flags = (rng.usize(4) as u32) | if rng.bool() { 16 } else { 0 };
+        mk_nested(rowlimit, wbs, flags, &rows, "")
     } else {
-        let nbytes = *rng.pick(&[0usize, 32, 64, 128, 256, 1024]);
+        let nbytes = *rng.pick(&[0usize, 32, 64, 128, 256, 512, 1024]);
         let nvals = match rng.usize(3) {
             0 => rng.usize(3),
             1 => rng.usize(12),
@@ -1317,26 +1780,189 @@ fn gen_case(rng: &mut Rng) -> (String, String) {
         };
         let values: Vec<Vec<u8>> = (0..nvals).map(|_| { let n = rng.usize(6); rng.bytes(n) }).collect();
         let fpp = *rng.pick(&[0.0f64, 1e-9, 0.01, 0.05, 0.5, 0.999999, 1.0]);
-        // observe the number of folds the implementation chooses (f64 heuristic = external parameter)
-        let mut f = Sbbf::new_with_num_of_bytes(nbytes);
-        let before = f.num_blocks();
-        for v in &values {
-            f.insert(&v[..]);
-        }
-        f.fold_to_target_fpp(fpp);
-        let folds = (before / f.num_blocks().max(1)).trailing_zeros();
-        let hashes: Vec<u64> = values.iter().map(|v| xxh(v)).collect();
-        let vs = if values.is_empty() { "-".to_string() } else { values.iter().map(|v| if v.is_empty() { "e".to_string() } else { hex(v) }).collect::<Vec<_>>().join(",") };
-        let line = format!("C07 bloom {} {} {} {} {}", nbytes, folds, fpp.to_bits(), vs, show_list(&hashes));
-        let tags = format!("op:bloom folds:{} blocks:{}{}", folds, before, if nvals > 0 { " nt" } else { "" });
-        (line, tags)
+        mk_bloom(nbytes, &values, fpp, "")
     }
+}
+
+/// minimal two's-complement big-endian encoding of `x` with `extra` redundant sign bytes
+fn dec_enc(x: i64, extra: usize) -> Vec<u8> {
+    let be = (x as i128).to_be_bytes();
+    let mut i = 0;
+    while i < 15 && ((be[i] == 0 && be[i + 1] & 0x80 == 0) || (be[i] == 0xFF && be[i + 1] & 0x80 != 0)) {
+        i += 1;
+    }
+    let mut v = vec![if x < 0 { 0xFF } else { 0 }; extra];
+    v.extend_from_slice(&be[i..]);
+    v
+}
+
+/// the fixed block of boundary cases that is part of every run (independent of the seed)
+fn boundary_block() -> Vec<(String, String)> {
+    let mut out = vec![];
+    let mut rng = Rng::new(0xB0DA);
+    let base = |stl: usize, cil: usize, rowlimit: usize, wbs: usize, flags: u32| Cfg { stl, cil, level: 2, wbs, rowlimit, flags, bloom: 0, rg: 0 };
+    let x = " dense";
+    // 1. truncation: every limit 1..8, the cut falling before / inside / after chars of width 1..4 and
+    //    the chars that cannot be incremented; binary with 0xFF runs; lengths l-1, l, l+1
+    for l in 1usize..=8 {
+        for back in 0usize..=3 {
+            if back > l {
+                continue;
+            }
+            for c in [0x61u32, 0xE9, 0x20AC, 0x1F600, 0x7F, 0x7FF, 0xD7FF, 0xFFFF, 0x10FFFF] {
+                for prev in [0x61u32, 0x7F, 0x10FFFF] {
+                    let mut st = String::new();
+                    for _ in 0..(l - back).saturating_sub(1) {
+                        st.push('a');
+                    }
+                    if l - back >= 1 {
+                        st.push(char::from_u32(prev).unwrap());
+                    }
+                    st.push(char::from_u32(c).unwrap());
+                    st.push_str("zz");
+                    out.push(mk_stats(Kind::Utf8, &base(l, l, 20000, 1024, 0), &[vec![Some(st.into_bytes())]], x));
+                }
+            }
+        }
+        for len in [l.saturating_sub(1), l, l + 1, l + 2] {
+            for pat in 0..4 {
+                let v: Vec<u8> = (0..len)
+                    .map(|i| match pat {
+                        0 => 0xFF,
+                        1 => if i == 0 { 0x01 } else { 0xFF },
+                        2 => if i + 1 == l { 0xFE } else { 0xFF },
+                        _ => if i < l { 0x00 } else { 0xFF },
+                    })
+                    .collect();
+                out.push(mk_stats(Kind::Bin, &base(l, l, 20000, 1024, 0), &[vec![Some(v.clone())]], x));
+                if len >= 1 {
+                    out.push(mk_stats(Kind::Flba(len), &base(l, l, 20000, 1024, 0), &[vec![Some(v)]], x));
+                }
+            }
+        }
+    }
+    // 2. decimals on the two's-complement length boundaries, minimal and redundantly sign-extended
+    let dv: [i64; 17] = [0, 1, -1, 127, 128, -128, -129, 255, 256, -256, -257, 32767, 32768, -32768, -32769, 8388607, -8388608];
+    for (i, a) in dv.iter().enumerate() {
+        for (j, b) in dv.iter().enumerate() {
+            let (ea, eb) = (dec_enc(*a, (i + j) % 3), dec_enc(*b, (i + 2 * j) % 3));
+            let one_page = (i + j) % 2 == 0;
+            let batches = vec![vec![Some(ea.clone())], vec![Some(eb.clone())]];
+            out.push(mk_stats(Kind::DecBa, &base(64, 64, if one_page { 20000 } else { 1 }, 1024, 0), &batches, x));
+            if i < 7 && j < 7 {
+                // the same values at fixed widths
+                for n in [2usize, 3, 16] {
+                    let fx = |v: i64| (v as i128).to_be_bytes()[16 - n..].to_vec();
+                    out.push(mk_stats(Kind::DecFlba(n), &base(1, 1, 1, 1024, 0), &[vec![Some(fx(*a))], vec![Some(fx(*b))]], x));
+                }
+            }
+        }
+    }
+    // 3. floats: every ordered pair of the special values, in one page and in two pages
+    for kind in [Kind::F16, Kind::F32, Kind::F64] {
+        let sp: Vec<Vec<u8>> = match kind {
+            Kind::F16 => [0x0000u16, 0x8000, 0x7C00, 0xFC00, 0x7E00, 0xFE00, 0x3C00, 0xBC00, 0x0001, 0x7BFF, 0xFBFF, 0x7C01]
+                .iter().map(|b| b.to_le_bytes().to_vec()).collect(),
+            Kind::F32 => [0u32, 0x8000_0000, 0x7F80_0000, 0xFF80_0000, 0x7FC0_0000, 0xFFC0_0000, 0x3F80_0000, 0xBF80_0000, 1, 0x7F7F_FFFF, 0xFF7F_FFFF, 0x7F80_0001]
+                .iter().map(|b| b.to_le_bytes().to_vec()).collect(),
+            _ => [0u64, 1 << 63, 0x7FF0 << 48, 0xFFF0 << 48, 0x7FF8 << 48, 0xFFF8 << 48, 0x3FF0 << 48, 0xBFF0 << 48, 1, 0x7FEF_FFFF_FFFF_FFFF, 0xFFEF_FFFF_FFFF_FFFF, (0x7FF0 << 48) | 1]
+                .iter().map(|b| b.to_le_bytes().to_vec()).collect(),
+        };
+        for (i, a) in sp.iter().enumerate() {
+            for (j, b) in sp.iter().enumerate() {
+                let fin = sp[6].clone();
+                let batches = vec![vec![Some(a.clone()), Some(b.clone())], vec![Some(fin)]];
+                let rowlimit = [20000usize, 1, 2][(i + j) % 3];
+                if (i + j) % 2 == 0 {
+                    out.push(mk_stats(kind, &base(0, 0, rowlimit, 1, 8), &batches, x));
+                } else {
+                    let cfg = Cfg { stl: 0, cil: 0, level: 2, wbs: 1024, rowlimit, flags: 4 | 8, bloom: 2, rg: 0 };
+                    let mut nb = batches.clone();
+                    nb[1].push(None);
+                    out.push(mk_file(if arrow_type(kind).is_some() && j % 2 == 0 { "aw" } else { "cw" }, kind, &cfg, &nb, x));
+                }
+            }
+        }
+    }
+    // 4. sizes that cross the 1024-value mini-batch / page row limits
+    for kind in [Kind::I32, Kind::Utf8, Kind::F16, Kind::DecBa, Kind::Bin, Kind::U64] {
+        for n in [1023usize, 1024, 1025, 2049] {
+            let pool: Vec<Vec<u8>> = (0..40).map(|_| gen_value(&mut rng, kind)).collect();
+            let b: Batch = (0..n).map(|_| Some(rng.pick(&pool).clone())).collect();
+            for (wbs, rowlimit) in [(1024usize, 20000usize), (1024, 1000), (500, 1024)] {
+                out.push(mk_stats(kind, &base(3, 3, rowlimit, wbs, 1), &[b.clone()], " dense big"));
+            }
+            if arrow_type(kind).is_some() {
+                let cfg = Cfg { stl: 3, cil: 3, level: 2, wbs: 1024, rowlimit: 1000, flags: 1 | 4, bloom: 5, rg: 1000 };
+                let nb: Batch = b.iter().enumerate().map(|(i, v)| if i % 97 == 0 { None } else { v.clone() }).collect();
+                out.push(mk_file("aw", kind, &cfg, &[nb], " dense big"));
+            }
+        }
+    }
+    // 5. bloom filters: block counts 1..512 (folds across 16 blocks), 0/1/8/9/many values
+    for nbytes in [32usize, 64, 512, 1024, 2048, 4096, 16384] {
+        for nvals in [0usize, 1, 7, 8, 9, 100, 1000] {
+            for fpp in [0.0f64, 0.01, 1.0] {
+                let values: Vec<Vec<u8>> = (0..nvals).map(|i| (i as u32).to_le_bytes().to_vec()).collect();
+                out.push(mk_bloom(nbytes, &values, fpp, x));
+            }
+        }
+    }
+    // 6. layouts and entry points: large / view / dictionary arrays, slices with junk around them and
+    //    junk under null slots; write_batch_with_statistics; several row groups; undefined orders
+    for kind in [Kind::Utf8, Kind::Bin, Kind::I32, Kind::U64, Kind::F64, Kind::F16, Kind::Flba(3), Kind::DecFlba(16), Kind::Bool] {
+        for api in ["aw", "awl", "awv", "awd"] {
+            for sliced in [0u32, 16] {
+                for nullable in [0u32, 4] {
+                    for rg in [0usize, 2] {
+                        let batches = gen_batches(&mut rng, kind, nullable != 0, false);
+                        let cfg = Cfg { stl: 2, cil: 2, level: 2, wbs: 2, rowlimit: 2, flags: sliced | nullable | 8 | 1 | if rg != 0 { 64 } else { 0 }, bloom: 3, rg };
+                        out.push(mk_file(api, kind, &cfg, &batches, x));
+                    }
+                }
+            }
+        }
+    }
+    for kind in [Kind::I32, Kind::U32, Kind::I64, Kind::U64, Kind::F32, Kind::F64, Kind::F16, Kind::DecBa, Kind::DecFlba(3), Kind::Utf8, Kind::Bin, Kind::Flba(2), Kind::Bool, Kind::Interval, Kind::Int96] {
+        for level in [1u8, 2] {
+            for rg in [0usize, 1, 3] {
+                for ws in [0u32, 32] {
+                    let batches = gen_batches(&mut rng, kind, true, true);
+                    let cfg = Cfg { stl: 64, cil: 64, level, wbs: 3, rowlimit: 2, flags: 4 | 8 | ws, bloom: 4, rg };
+                    out.push(mk_file("cw", kind, &cfg, &batches, x));
+                }
+            }
+        }
+    }
+    // 7. nested columns: null / empty lists and null items next to values, 1..3 rows per page
+    let nrows: Vec<Vec<NRow>> = vec![
+        vec![Some(vec![None, None]), Some(vec![Some(1)])],
+        vec![Some(vec![Some(1)]), Some(vec![None, None])],
+        vec![None, Some(vec![Some(5), None])],
+        vec![Some(vec![]), Some(vec![Some(-2), Some(7)]), None],
+        vec![Some(vec![None]), Some(vec![None]), Some(vec![Some(3), Some(4), Some(5)])],
+        vec![Some(vec![Some(1), Some(2)]), Some(vec![Some(3)])],
+        vec![None, None],
+        vec![Some(vec![None, None, Some(9)])],
+    ];
+    for rows in &nrows {
+        for rowlimit in [1usize, 2, 3, 20000] {
+            for flags in [0u32, 16, 1, 2] {
+                out.push(mk_nested(rowlimit, 1024, flags, rows, x));
+            }
+        }
+    }
+    out
 }
 
 /// class of an oracle failure message (appended to the tags as `fail:<class>`)
 fn fail_class(msg: &str) -> &'static str {
     if msg.contains("does not bound") || msg.contains("flagged exact") || msg.contains("only one of min/max") {
         "bound"
+    } else if msg.contains("panicked") {
+        "convpanic"
+    } else if msg.contains("null_pages[") {
+        "nullpage"
     } else if msg.contains("boundary order") {
         "order"
     } else if msg.contains("bloom") {
@@ -1388,7 +2014,9 @@ fn t_kind(k: Kind) -> &'static str {
 
 fn main() {
     let args = parse_args();
-    quiet_panics();
+    if std::env::var("C07_DEBUG").is_err() {
+        quiet_panics();
+    }
     let mut sink = Sink::new(&args.out);
     if args.mode == "replay" {
         for line in read_cases(args.replay.as_ref().unwrap()) {
@@ -1400,6 +2028,10 @@ fn main() {
     } else {
         let mut rng = Rng::new(args.seed ^ 0xC07C07);
         let n = n_cases(&args, 20000, 400000);
+        for (line, tags) in boundary_block() {
+            let (ans, fails) = run_case_full(&line);
+            record(&mut sink, line, ans, fails, &tags);
+        }
         for _ in 0..n {
             let (line, tags) = gen_case(&mut rng);
             let (ans, fails) = run_case_full(&line);
@@ -1416,13 +2048,14 @@ fn replay_tags(line: &str) -> String {
         Some("stats") => {
             let kind = parse_kind(t[2]);
             let cfg = parse_cfg_stats(&t[3..8]);
-            format!("op:stats kind:{}{}", t_kind(kind), value_tags(kind, &cfg, &parse_batches(t[8])))
+            mk_stats(kind, &cfg, &parse_batches(t[8]), "").1
         }
         Some("file") => {
             let kind = parse_kind(t[3]);
-            let cfg = parse_cfg_file(&t[4..11]);
-            format!("op:file api:{} kind:{}{}", t[2], t_kind(kind), value_tags(kind, &cfg, &parse_batches(t[11])))
+            let cfg = parse_cfg_file(&t[4..12]);
+            file_tags(t[2], kind, &cfg, &parse_batches(t[12]))
         }
+        Some("nested") => nested_tags(&parse_nested(t[5])),
         Some("bloom") => "op:bloom nt".to_string(),
         _ => "replay".to_string(),
     });
